@@ -1,1 +1,7 @@
+pub mod digest;
+pub mod distinfo;
+pub mod misc;
+pub mod plist;
+pub mod scan;
+pub mod summary;
 pub mod version;
